@@ -109,7 +109,7 @@ class LaTeXRenderer(BaseRenderer):
                     '{}'
                     '\\end{{lstlisting}}\n')
         inner = self.render_raw_text(token.children[0], False)
-        return template.format(token.language, inner)
+        return template.format(token.language.translate(self._text_escapes), inner)
 
     def render_list(self, token):
         self.packages['listings'] = []
